@@ -1602,3 +1602,111 @@ Qed.
 (* pinned SendTo: one failed send is enough to lose it *)
 Theorem config_lost_refuted : carries_config false [RErr] = false.
 Proof. reflexivity. Qed.
+
+(* ---- the in-memory transport under back-pressure (C09-N3) ------------------------------------------- *)
+
+Definition lstuck (fx : bool) (s : lconn) : Prop := forall a, lstep fx s a = None.
+
+Definition lall : list laction :=
+  [LSend; LSendRoom; LFwdTake; LFwdPush; LFwdClose; LRead; LReaderStop; LCloseBegin; LCloseEnd; LOther].
+
+Lemma lstuck_dec fx s :
+  forallb (fun a => match lstep fx s a with None => true | Some _ => false end) lall = true -> lstuck fx s.
+Proof.
+  intros H a. rewrite forallb_forall in H.
+  assert (Hin : In a lall) by (destruct a; cbn; tauto).
+  specialize (H a Hin). destruct (lstep fx s a); [discriminate|reflexivity].
+Qed.
+
+Definition lst_of (o : option lconn) : lconn := match o with Some s => s | None => linit 0 end.
+
+(* pinned code: the reader has stopped with the outgoing queue full, the forwarder holds a packet,
+   the peer is closed: lm.close waits for closeConfirm for ever WITH the manager's lock -- nothing
+   in the whole manager can move any more *)
+Definition close_deadlock_history : list laction :=
+  [LSend; LFwdTake; LFwdPush; LReaderStop; LSend; LFwdTake; LCloseBegin].
+
+Theorem local_close_deadlock_refuted :
+  exists s, lrun false (linit 1) close_deadlock_history = Some s /\ closer s = CWait /\ lstuck false s.
+Proof.
+  exists (lst_of (lrun false (linit 1) close_deadlock_history)).
+  split; [reflexivity|]. split; [reflexivity|]. apply lstuck_dec. reflexivity.
+Qed.
+
+(* pinned code, second form: a Send that finds the incoming queue full waits with the manager's lock *)
+Definition send_deadlock_history : list laction :=
+  [LSend; LFwdTake; LFwdPush; LReaderStop; LSend; LFwdTake; LSend; LSend].
+
+Theorem local_send_deadlock_refuted :
+  exists s, lrun false (linit 1) send_deadlock_history = Some s /\ lock_s s = true /\ closer s = CIdle /\ lstuck false s.
+Proof.
+  exists (lst_of (lrun false (linit 1) send_deadlock_history)).
+  split; [reflexivity|]. split; [reflexivity|]. split; [reflexivity|]. apply lstuck_dec. reflexivity.
+Qed.
+
+(* the same histories are harmless with the repair *)
+Example local_close_repaired_example :
+  exists s, lrun true (linit 1) (close_deadlock_history ++ [LFwdClose; LCloseEnd; LOther]) = Some s /\ closer s = CDone.
+Proof.
+  exists (lst_of (lrun true (linit 1) (close_deadlock_history ++ [LFwdClose; LCloseEnd; LOther]))).
+  split; vm_compute; reflexivity.
+Qed.
+
+Record LInv (s : lconn) : Prop := {
+  li_lock : lock_s s = false;
+  li_sig : closer s <> CIdle -> closesig s = true }.
+
+Lemma lstep_inv s a s' : LInv s -> lstep true s a = Some s' -> LInv s'.
+Proof.
+  intros [L G] H. destruct a; cbn in H.
+  - destruct (closesig s) eqn:E; [inv_some; constructor; auto|].
+    destruct (inq s <? lcap s); inv_some. constructor; cbn; auto.
+  - rewrite L in H. discriminate.
+  - destruct (fwd s); try discriminate. destruct (inq s); inv_some. constructor; cbn; auto.
+  - destruct (fwd s); try discriminate. destruct (outq s <? lcap s); inv_some. constructor; cbn; auto.
+  - destruct (closesig s) eqn:E; [|discriminate]. destruct (fwd s); inv_some; constructor; cbn; auto.
+  - destruct (reading s); [|discriminate]. destruct (outq s); inv_some. constructor; cbn; auto.
+  - destruct (reading s); inv_some. constructor; cbn; auto.
+  - destruct (closer s) eqn:E; try discriminate. destruct (lock_free s); inv_some. constructor; cbn; auto.
+  - destruct (closer s) eqn:E; try discriminate. destruct (fwd s); inv_some. constructor; cbn; auto.
+    intros _. apply G. congruence.
+  - destruct (lock_free s); inv_some. constructor; auto.
+Qed.
+
+Lemma lrun_inv acts : forall s s', LInv s -> lrun true s acts = Some s' -> LInv s'.
+Proof.
+  induction acts as [|a r IH]; cbn; intros s s' I H; [now inv_some|].
+  destruct (lstep true s a) as [s1|] eqn:E; [|discriminate]. apply (IH s1 s'); auto. eapply lstep_inv; eauto.
+Qed.
+
+(* repaired code, every queue size, every history: no Send ever waits with the manager's lock, and
+   whenever a close is waiting for its confirmation the forwarding goroutine can give it at once --
+   closing a connection always gets through, however full its queues are and whether or not
+   anybody still reads *)
+Theorem local_close_completes cap acts s :
+  lrun true (linit cap) acts = Some s ->
+  lock_s s = false /\
+  (closer s = CWait ->
+   exists s', (lrun true s [LFwdClose; LCloseEnd] = Some s' \/ lrun true s [LCloseEnd] = Some s') /\
+              closer s' = CDone /\ lock_free s' = true).
+Proof.
+  intros R. assert (I : LInv s).
+  { eapply lrun_inv; [|exact R]. constructor; cbn; auto. intros H; congruence. }
+  destruct I as [L G]. split; auto. intros Hc.
+  assert (Hs : closesig s = true) by (apply G; congruence).
+  destruct (fwd s) eqn:Ef.
+  - eexists. split; [left; cbn; rewrite Hs, Ef; cbn; rewrite Hc; reflexivity|]. cbn. unfold lock_free. cbn. now rewrite L.
+  - eexists. split; [left; cbn; rewrite Hs, Ef; cbn; rewrite Hc; reflexivity|]. cbn. unfold lock_free. cbn. now rewrite L.
+  - eexists. split; [right; cbn; rewrite Hc, Ef; reflexivity|]. cbn. unfold lock_free. cbn. now rewrite L.
+Qed.
+
+(* the flood scenario of the harness, for the real queue size *)
+Theorem flood_outcome_repaired : forall k, In k [50; 150; 250; 300; 380; 430; 450; 500] ->
+  flood_outcome true 200 k = (true, true, true, true).
+Proof. intros k H. cbn in H. repeat (destruct H as [<-|H]; [vm_compute; reflexivity|]). destruct H. Qed.
+
+Theorem flood_outcome_pinned :
+  flood_outcome false 200 150 = (true, true, true, true) /\
+  flood_outcome false 200 300 = (false, true, false, false) /\
+  flood_outcome false 200 450 = (false, false, false, false).
+Proof. repeat split; vm_compute; reflexivity. Qed.
